@@ -560,7 +560,7 @@ func init() {
 		}
 		c01Sizes(r)
 		// the GSUB/GPOS table of a font: lookup lists at the points where extension records set in (shared with C08)
-		c08ExtensionWindowPart(r, "C01.lookup-list-extension", 1, 3)
+		c08ExtensionWindowPart(r, "C01.lookup-list-extension", 1, 4, 4)
 		c01Generated(r)
 		c01Accepted(r)
 		c01MapOrder(r)
